@@ -186,11 +186,24 @@ Inductive sobs := SOVal (res : elem) (after : string) | SOThrow | SOPanic | SOOt
 Inductive anycase := CA (c : case) | CS (m : smeth) (s : string) (args : list elem) (o : sobs).
 Definition sagree (r : elem) (s : string) (o : sobs) : bool :=
   match o with SOVal r' s' => elem_eqb r r' && String.eqb s s' | _ => false end.
+(* informational codes (not failures): 9 = the property oracle (spec) says nothing about this call
+   (outside the documented argument shapes), 8 = neither does the model (string cases only) *)
+Definition spec_silent (c : case) : list nat :=
+  match c with
+  | CCall MSort _ _ _ => []
+  | CCall m recv args _ => match spec_call m recv args with None => [9%nat] | Some _ => [] end
+  | CNamed m pn recv pos named _ =>
+      match bind_named pn pos named with
+      | Some args => match m with MSort => [] | _ => match spec_call m recv args with None => [9%nat] | Some _ => [] end end
+      | None => []
+      end
+  | _ => []
+  end.
 Definition check_any (c : anycase) : list nat :=
   match c with
-  | CA c' => check_case c'
+  | CA c' => (check_case c' ++ spec_silent c')%list
   | CS m s args o =>
-      (match scall m s args with Some r => if sagree r s o then [] else [1%nat] | None => [] end) ++
-      (match sspec m s args with Some r => if sagree r s o then [] else [2%nat] | None => [] end) ++
+      (match scall m s args with Some r => if sagree r s o then [] else [1%nat] | None => [8%nat] end) ++
+      (match sspec m s args with Some r => if sagree r s o then [] else [2%nat] | None => [9%nat] end) ++
       (match o with SOVal _ s' => if String.eqb s s' then [] else [3%nat] | SOPanic => [4%nat] | _ => [] end)
   end.
